@@ -188,6 +188,8 @@ func runLive(t *chaingen.Tree, cs Case, crashAt int, finalIdx int) (lo liveOutco
 	switch {
 	case !ok:
 		fail("c03-catch-up-ends-elsewhere", "the node ends on an unknown block")
+	case end != final && mgrsim.Heavier(final, end):
+		fail("c03-catch-up-stays-behind", "fed the whole history again the node ends on block %d, which is sufficiently lighter than block %d, the tip of the uninterrupted run, although the history contains the call that took the uninterrupted node there", end.Idx, final.Idx)
 	case end != final && !separated(t, final):
 		lo.unsep = true
 	case end != final:
